@@ -4,8 +4,10 @@ Import ListNotations.
 Open Scope Z_scope.
 
 (* input : [VB method; VB urlPath; VB acceptEncoding; VL root elems; VB defaultFile; VZ enableCompress;
-            VL [ [VL path elems; VB content | VZ 0 (directory)] ... ]]     (absolute paths)
-   output: [VZ status; VB body; VB Content-Length header ("" = absent); VB Content-Encoding header] *)
+            VL [ [VL path elems; VB content | VZ 0 (directory)] ... ]; VZ route]     (absolute paths; route: see static_handler)
+   output: [VZ status (-1 = handler lets the request go on); VB body; VB Content-Length header ("" = absent);
+            VB Content-Encoding header; VL [FileBrowseNotExist increment; FileBrowseFallbackDefault increment;
+            FileCurrentOpened gauge after the response body was read and closed]] *)
 Definition dec_node (v : val) : option node :=
   match v with VB c => Some (NFile c) | VZ 0 => Some NDir | _ => None end.
 Definition dec_entry (v : val) : option (list elem * node) :=
@@ -17,23 +19,29 @@ Definition dec_fs (v : val) : option fsys :=
   match v with VL l => all_some (map dec_entry l) | _ => None end.
 
 Record input := { i_meth : bytes; i_name : bytes; i_ae : bytes; i_root : list elem; i_def : bytes;
-                  i_compress : bool; i_fs : fsys }.
+                  i_compress : bool; i_fs : fsys; i_route : Z }.
 Definition dec_input (v : val) : option input :=
   match v with
-  | VL [VB m; VB n; VB ae; r; VB d; VZ c; f] =>
+  | VL [VB m; VB n; VB ae; r; VB d; VZ c; f; VZ rt] =>
     match as_LB r, dec_fs f with
     | Some r', Some f' => Some {| i_meth := m; i_name := n; i_ae := ae; i_root := r'; i_def := d;
-                                  i_compress := negb (c =? 0); i_fs := f' |}
+                                  i_compress := negb (c =? 0); i_fs := f'; i_route := rt |}
     | _, _ => None
     end
   | _ => None
   end.
 Definition serve_input (x : input) : resp :=
   serve (i_fs x) (i_root x) (i_meth x) (i_name x) (i_ae x) (i_def x) (i_compress x).
-Definition enc_resp (r : resp) : val := VL [VZ (r_status r); VB (r_body r); VB (r_clen r); VB (r_cenc r)].
+Definition counters_input (x : input) : Z * Z :=
+  counters (i_fs x) (i_root x) (i_meth x) (i_name x) (i_ae x) (i_def x) (i_compress x).
+Definition enc_resp (x : input) : val :=
+  if i_route x =? 0 then
+    let r := serve_input x in let '(ne, fb) := counters_input x in
+    VL [VZ (r_status r); VB (r_body r); VB (r_clen r); VB (r_cenc r); VL [VZ ne; VZ fb; VZ 0]]
+  else VL [VZ (-1); VB []; VB []; VB []; VL [VZ 0; VZ 0; VZ 0]].
 
 Definition run_C50 (v : val) : val :=
-  match dec_input v with Some x => enc_resp (serve_input x) | None => VErr 0 end.
+  match dec_input v with Some x => enc_resp x | None => VErr 0 end.
 Definition agree_C50 (i o : val) : bool := val_eqb (run_C50 i) o.
 
 (* ---- the property, written from the statement of C50 over (input, observed response) ---- *)
@@ -90,9 +98,63 @@ Definition prop_resp (x : input) (st : Z) (body clen cenc : bytes) : bool :=
      | None => true
      end).
 
+(* ---- pre-compressed siblings (EnableCompress): which file may be served with which Content-Encoding *)
+Definition DOTGZ : bytes := [46; 103; 122].
+Definition DOTBR : bytes := [46; 98; 114].
+(* some regular file under the root whose name ends with sufx has these bytes / this length *)
+Definition served_suffix (fs : fsys) (root : list elem) (is_get : bool) (body clen sufx : bytes) : bool :=
+  existsb (fun e => match e with
+                    | (p, NFile c) => path_prefix root p && is_suffix sufx (last p []) && bytes_eqb clen (dec_of_Z (blen c))
+                                      && (if is_get then bytes_eqb body c else bytes_eqb body [])
+                    | _ => false
+                    end) fs.
+(* a Content-Encoding is announced only on a 200 answer, only when pre-compressed lookup is enabled, only gzip/br,
+   only if the request's Accept-Encoding has that token, and the bytes are those of a *.gz / *.br file under the root *)
+Definition prop_enc (x : input) (st : Z) (body clen cenc : bytes) : bool :=
+  if bytes_eqb cenc [] then true
+  else
+    let is_get := bytes_eqb (i_meth x) GET in
+    (st =? 200) && i_compress x
+    && ((bytes_eqb cenc GZIP && has_token (i_ae x) GZIP && served_suffix (i_fs x) (i_root x) is_get body clen DOTGZ)
+        || (bytes_eqb cenc BR && has_token (i_ae x) BR && served_suffix (i_fs x) (i_root x) is_get body clen DOTBR)).
+(* the sibling of path es with extension ext: last element extended by "." ext *)
+Definition sib (es : list elem) (ext : bytes) : list elem := removelast es ++ [last es [] ++ 46 :: ext].
+(* first accepted encoding (gzip before br) whose sibling exists *)
+Fixpoint spec_pick (fs : fsys) (root es : list elem) (cands : list (bytes * bytes)) : option (list elem * bytes) :=
+  match cands with
+  | [] => None
+  | (enc, ext) :: r => match fs_get fs (root ++ sib es ext) with
+                       | Some _ => Some (sib es ext, enc)
+                       | None => spec_pick fs root es r
+                       end
+  end.
+(* plain path with pre-compressed lookup on: the first existing sibling among the accepted encodings is served with
+   that Content-Encoding; without one the file itself, without Content-Encoding; nothing there and no default => 404 *)
+Definition prop_sibling (x : input) (st : Z) (body clen cenc : bytes) : bool :=
+  let fs := i_fs x in let root := i_root x in
+  let is_get := bytes_eqb (i_meth x) GET in
+  if negb (is_get || bytes_eqb (i_meth x) HEAD) || negb (i_compress x) || negb (fs_closed fs)
+     || negb (forallb plain_elem root) then true
+  else match plain_path (i_name x) with
+       | None => true
+       | Some es =>
+         let '(target, enc) := match spec_pick fs root es (accept_list (i_ae x)) with
+                               | Some te => te | None => (es, []) end in
+         match fs_get fs (root ++ target) with
+         | Some (NFile c) => (st =? 200) && bytes_eqb clen (dec_of_Z (blen c)) && bytes_eqb cenc enc
+                             && (if is_get then bytes_eqb body c else bytes_eqb body [])
+         | Some NDir => true
+         | None => match i_def x with [] => st =? 404 | _ => true end
+         end
+       end.
+
 Definition prop_C50 (i o : val) : bool :=
   match dec_input i, o with
-  | Some x, VL [VZ st; VB body; VB clen; VB cenc] => prop_resp x st body clen cenc
+  | Some x, VL [VZ st; VB body; VB clen; VB cenc; VL [VZ ne; VZ fb; VZ opened]] =>
+    if i_route x =? 0 then
+      prop_resp x st body clen cenc && prop_enc x st body clen cenc && prop_sibling x st body clen cenc
+      && (opened =? 0)                                   (* the served file is closed again *)
+    else (st =? -1) && bytes_eqb body []                 (* no rule for the request: not handled here *)
   | _, _ => false
   end.
 Definition kf_C50 (i : val) : Z := 0.
